@@ -300,7 +300,7 @@ func specIsHelperName(name string) bool {
 //
 //@ func (*converter).FuncStart
 //@   loop @"range params" invariant[C02] lines-so-far: len(c.code) == len(old(c.code)) + 2 + rangeindex && samePrefix(old(c.code), c.code) && c.code[len(old(c.code))] == name + "() {"
-//@   loop @"range params" invariant[C02,C03] params-so-far: forall(k, 0, rangeindex + 1, c.code[len(old(c.code)) + 1 + k] == "local " + specAssign(specName(true, c.funcCounter, params[k], false), "${" + itoa(k + 1) + "}"))
+//@   loop @"range params" invariant[C02,C03,C08] params-so-far: forall(k, 0, rangeindex + 1, c.code[len(old(c.code)) + 1 + k] == "local " + specAssign(specName(true, c.funcCounter, params[k], false), "${" + itoa(k + 1) + "}"))
 //@   loop @"range params" invariant[C02] frame: sameExcept(c, old(c), "code", "funcs", "funcCounter") && c.funcCounter == old(c.funcCounter) + 1 && appended(c.funcs, old(c.funcs), funcInfoOf(name))
 //@   ensures[C02] header: len(c.code) == len(old(c.code)) + 1 + len(params) && samePrefix(old(c.code), c.code) && c.code[len(old(c.code))] == name + "() {"
 //@   ensures[C02,C08,C03] parameter-binding: forall(k, 0, len(params), c.code[len(old(c.code)) + 1 + k] == "local " + specAssign(specName(true, c.funcCounter, params[k], false), "${" + itoa(k + 1) + "}"))
